@@ -2179,10 +2179,6 @@ fn main() {
         out.rule = "random op sequences (5..100 ops after reset+router) of register_value / register_function (echoing or failing callables) / merge_at / merge_root / set_root / read_value / dispatch read / dispatch with body / requests through a Router::with_registry mount (6 prefix sets; json, beve, utf8, raw, broken bodies), pointers drawn from a per-sequence pool grown by child/parent steps over tokens {a,b,c,'',0,1,01,+1,++1,-,2,00,+0,x/y,m~n,~,/,é,'k k',2^64-1,2^64,-1,+,1e0,~1,~0,/0,/1,~/,a~1b,/~,~01 (escaped: ~01,~00,~10,~11,~0~1,a~01b,~1~0,~001)} plus root forms and malformed pointers (no slash, ~2, trailing ~); parse_json_pointer / eval_json_pointer on well-formed and lenient inputs; exhaustive enumeration of all op sequences over 3 pointers x 3 values (27 ops) a depth ladder (documents 1..1000, thorough 4096, levels deep: reads, writes, merges, registrations, calls at depth, depth+1, depth+2, the sibling, the ancestor and the escaped alias of the last two tokens); in domains d1 (nesting), d2 (escapes + root), d3 (array indices), d4 (keys `~1` and `/`: pointers /~01, /~1, /~01/~10), d5 (index spellings ++1, +01, -0). Distinct by op line; non-trivial = the operation succeeded (Ok result)".into();
         let mut ops = Vec::new();
         let mut k = 0u64;
-        let nseq = if thorough { 4000 } else { 400 };
-        for _ in 0..nseq {
-            gen_sequence(&mut rng, &mut k, &mut ops, 100, thorough);
-        }
         // depth ladder: documents that really are that deep, around every power of two a parser might cap at
         let mut depths: Vec<usize> = vec![1, 2, 15, 16, 17, 31, 32, 33, 62, 63, 64, 65, 66, 127, 128, 129, 255, 256, 257, 1000];
         if thorough {
@@ -2190,6 +2186,10 @@ fn main() {
         }
         for d in depths {
             gen_deep(&mut rng, &mut k, &mut ops, d);
+        }
+        let nseq = if thorough { 4000 } else { 400 };
+        for _ in 0..nseq {
+            gen_sequence(&mut rng, &mut k, &mut ops, 100, thorough);
         }
         gen_jp(&mut rng, &mut k, &mut ops, if thorough { 40000 } else { 4000 });
         let len = if thorough { 5 } else { 4 };
